@@ -704,8 +704,13 @@ def render_cnf(cnf, style, inline=False, ind=''):
     lines = []
     for line in cnf:
         alts = [render_clause(c, style, ind) for c in line]
-        lines.append((' ' + render_or(style) + ' ').join(alts) if inline else
-                     (' ' + render_or(style) + '\n' + ind).join(alts))
+        if inline:
+            lines.append((' ' + render_or(style) + ' ').join(alts))
+        elif style.get('or_lead'):
+            # the alternative ends its line (with a comment when comments are on), `or` leads the next line
+            lines.append((('  # c' if style.get('comments') else '') + '\n' + ind + render_or(style) + ' ').join(alts))
+        else:
+            lines.append((' ' + render_or(style) + ('  # c' if style.get('alt_comments') else '') + '\n' + ind).join(alts))
     if inline:
         return '\n'.join(lines)
     out = []
